@@ -14,7 +14,8 @@ ID = "C09"
 LEVEL = "exploration"
 RULE = ("one simulated node with the REAL block store and a pending pool, three greeted peers; a Hypothesis-drawn sequence of "
         "unsolicited block deliveries (in_response_to = 0): valid blocks on any fork, duplicates (of accepted and of rejected "
-        "blocks), orphans (child before parent, parent later), and candidates with exactly one rule broken from the whole "
+        "blocks), orphans (child before parent, parent later), copies of a valid block with a corrupted body under the genuine "
+        "header delivered BEFORE the genuine block, and candidates with exactly one rule broken from the whole "
         "catalogue (structural, header, spending, value rules; spends of a missing output make APPLYING the block fail). "
         "Reference acceptor: new id and known parent and reference-valid. Oracle after EVERY delivery: the node's stored ids == "
         "reference set; head per reference fork choice; store rows (file reopened) == reference set, each block byte-identical; "
@@ -40,6 +41,8 @@ def gen(rnd, cfg, nb):
         if not op.get("mut") and x < 0.15 and i > 1:
             deferred.append(i)
             continue
+        if not op.get("mut") and rnd.random() < 0.2:
+            deliveries.append(-1 - i)                         # first a copy with a corrupted body under the genuine header
         deliveries.append(i)
         delivered.append(i)
         if rnd.random() < 0.2:
@@ -147,10 +150,19 @@ class Exec:
 
     def deliver(self, idx, who):
         M, b = self.M, self.b
+        corrupt_body = idx < 0
+        if corrupt_body:
+            idx = -1 - idx
         blk = self.built.get(idx)
         if blk is None:
             return
         op = self.case["ops"][idx]
+        if corrupt_body:
+            cb = blk.txs[0]
+            alt = R.RTx(list(cb.ins), [(max(0, (cb.outs[0][0] if cb.outs else 1) - 1), KEYS[(op.get("miner", 0) + 3) % len(KEYS)].pub)])
+            blk = R.RBlock(blk.height, blk.prev, blk.merkle, blk.ts, blk.target, blk.nonce, blk.ev, [alt] + list(blk.txs[1:]))
+            op = dict(op, mut="S:body_corrupted_under_genuine_header", form="obj")
+            self.flags["corrupt_body_copies"] = self.flags.get("corrupt_body_copies", 0) + 1
         who %= len(self.peers)
         if not self.peers[who].connected:
             self.new_peer(who)
@@ -161,7 +173,7 @@ class Exec:
         now = self.simnet.CLOCK.now
         bid = blk.id()
         # reference acceptor
-        if bid in self.acc.nodes:
+        if bid in self.acc.nodes and not corrupt_body:
             expect, why = False, "duplicate"
             self.flags["dups"] += 1
         elif blk.prev not in self.acc.nodes:
